@@ -1135,6 +1135,15 @@ func (d *jdecoder) decode(t types.Type, n *jnode, dst *Value) {
 	}
 	switch u := t.Underlying().(type) {
 	case *types.Interface:
+		// a non-nil pointer stored in the interface is decoded into (encoding/json semantics)
+		if cur, ok := (*dst).(Iface); ok && cur.T != nil {
+			if pt, ok := cur.T.Underlying().(*types.Pointer); ok {
+				if pv, _ := cur.V.(*Value); pv != nil {
+					d.decode(pt.Elem(), n, pv)
+					return
+				}
+			}
+		}
 		if u.NumMethods() > 0 {
 			d.typeErr(n, t)
 			return
